@@ -88,3 +88,40 @@ func init() {
 		r.OkTrivial("debug", "x", 0)
 	})
 }
+
+func init() {
+	register("DEBUGERR", func(r *Run) {
+		for _, pk := range []string{"p9p", "ufs", "ramfs"} {
+			for _, fn := range r.P.FuncsOfPkg(pk) {
+				eachInstr(fn, func(in ssa.Instruction) {
+					c, ok := in.(ssa.CallInstruction)
+					if !ok {
+						return
+					}
+					sig := c.Common().Signature()
+					if sig == nil || sig.Results().Len() == 0 || !isErrorType(sig.Results().At(sig.Results().Len()-1).Type()) {
+						return
+					}
+					kind := ""
+					switch x := in.(type) {
+					case *ssa.Defer:
+						kind = "deferred"
+					case *ssa.Go:
+						kind = "go"
+					case *ssa.Call:
+						e := errResult(x)
+						if e == nil {
+							kind = "result discarded"
+						} else if len(referrers(e)) == 0 {
+							kind = "error unused"
+						}
+					}
+					if kind != "" {
+						fmt.Fprintf(os.Stderr, "%s | %s | %s | %s\n", r.P.Pos(in.Pos()), fnName(fn), calleeName(c.Common()), kind)
+					}
+				})
+			}
+		}
+		r.OkTrivial("debug", "x", 0)
+	})
+}
